@@ -54,7 +54,7 @@ func ber2der(ber []byte) ([]byte, error) {
 	//fmt.Printf("--> ber2der: Transcoding %d bytes\n", len(ber))
 	out := new(bytes.Buffer)
 
-	obj, _, err := readObject(ber, 0)
+	obj, _, err := readObject(ber, 0, 0)
 	if err != nil {
 		return nil, err
 	}
@@ -127,8 +127,16 @@ func encodeLength(out *bytes.Buffer, length int) (err error) {
 
 var errBERTruncated = errors.New("ber2der: BER data is truncated")
 
-func readObject(ber []byte, offset int) (asn1Object, int, error) {
+// maxBERDepth is the deepest nesting of constructed values that readObject
+// follows. readObject and EncodeTo recurse once per level, so without a limit
+// the recursion depth is chosen by the input.
+const maxBERDepth = 128
+
+func readObject(ber []byte, offset int, depth int) (asn1Object, int, error) {
 	//fmt.Printf("\n====> Starting readObject at offset: %d\n\n", offset)
+	if depth > maxBERDepth {
+		return nil, 0, errors.New("ber2der: BER data is nested too deeply")
+	}
 	if offset >= len(ber) {
 		return nil, 0, errBERTruncated
 	}
@@ -215,7 +223,7 @@ func readObject(ber []byte, offset int) (asn1Object, int, error) {
 		for (offset < contentEnd) || indefinite {
 			var subObj asn1Object
 			var err error
-			subObj, offset, err = readObject(ber, offset)
+			subObj, offset, err = readObject(ber, offset, depth+1)
 			if err != nil {
 				return nil, 0, err
 			}
